@@ -1,7 +1,7 @@
 //! C14 — header-type, message-info and type-info codes decode and re-encode consistently.
 //!
 //! Case index space:
-//!   0                : all 256 HTYP bytes x 4 payload variants, through dlt_message
+//!   0                : all 256 HTYP bytes x 6 variants, through dlt_message
 //!   1                : all 256 MSIN bytes, MessageType::try_from / u8::from and through dlt_message
 //!   2 .. 2+W         : type-info words in blocks of 2^16; thorough: W = 65536 blocks = all 2^32 words;
 //!                      quick: all 2^18 low words x 16 patterns of the ignored high bits (64 blocks)
@@ -138,21 +138,29 @@ fn check_word_through_parser(ctx: &mut Ctx, w: u32, be: bool, msin: u8) {
 
 fn check_htyp(ctx: &mut Ctx) {
     for b in 0..=255u8 {
-        for variant in 0..4u8 {
+        for variant in 0..6u8 {
             let ueh = b & 1 != 0;
             let hl = headers_len(b);
             let payload: Vec<u8> = match variant {
                 0 => vec![9, 0, 0, 0],
                 1 => vec![1, 2, 3, 4, 5, 6, 7],
-                2 => vec![0xff; 4],
+                2 | 4 | 5 => vec![0xff; 4],
                 // counter 0x4C and length 0x5401: for HTYP 0x44 the header reads "DLT\x01"
                 _ => vec![0x33; 0x5401 - hl],
             };
             let total = hl + payload.len();
             let mcnt = if variant == 3 { 0x4c } else { 0x5a };
             let mut m = vec![b, mcnt, (total >> 8) as u8, total as u8];
+            // variants 4 and 5: the ECU id field is blank / starts with a byte that is not UTF-8
+            // (the flag still announces the field, the decoded id is the empty string)
+            let ecu_field: &[u8; 4] = match variant {
+                4 => &[0, 0, 0, 0],
+                5 => &[0xFF, b'C', b'U', 0],
+                _ => b"ECU\0",
+            };
+            let ecu_want = if variant >= 4 { "" } else { "ECU" };
             if b & 4 != 0 {
-                m.extend_from_slice(b"ECU\0");
+                m.extend_from_slice(ecu_field);
             }
             if b & 8 != 0 {
                 m.extend_from_slice(&0x01020304u32.to_be_bytes());
@@ -181,7 +189,7 @@ fn check_htyp(ctx: &mut Ctx) {
                         && h.timestamp.is_some() == (b & 16 != 0)
                         && h.session_id.map_or(true, |s| s == 0x01020304)
                         && h.timestamp.map_or(true, |s| s == 0x0a0b0c0d)
-                        && h.ecu_id.as_deref().map_or(true, |s| s == "ECU")
+                        && h.ecu_id.as_deref().map_or(true, |s| s == ecu_want)
                         && h.message_counter == mcnt
                         && msg.extended_header.is_some() == ueh;
                     if !ok {
@@ -190,7 +198,17 @@ fn check_htyp(ctx: &mut Ctx) {
                         ctx.violation("htyp.reencodes_same", &format!("{:#04x}", b), || detail(format!("header_type_byte {:#04x}", h.header_type_byte())));
                     } else if h.as_bytes().first() != Some(&b) {
                         ctx.violation("htyp.reencodes_same", &format!("as_bytes:{:#04x}", b), || detail(hex(&h.as_bytes())));
-                    } else if h.as_bytes()[..] != m[..hl - if ueh { 10 } else { 0 }] {
+                    } else if {
+                        // the re-encoded header equals the input bytes; where the id field held bytes that
+                        // are not UTF-8 (variant 5) the id itself cannot be reproduced and is left out
+                        let mut got = h.as_bytes();
+                        let mut want = m[..hl - if ueh { 10 } else { 0 }].to_vec();
+                        if variant == 5 && b & 4 != 0 && got.len() >= 8 && want.len() >= 8 {
+                            got[4..8].copy_from_slice(&[0; 4]);
+                            want[4..8].copy_from_slice(&[0; 4]);
+                        }
+                        got != want
+                    } {
                         ctx.violation("htyp.standard_header_bytes", &format!("{:#04x}", b), || detail(hex(&h.as_bytes())));
                     } else {
                         ctx.obs("htyp.ok");
@@ -346,17 +364,17 @@ impl Monitor for M {
         let thorough = ctx.tier == Tier::Thorough && !light;
         super::describe(
             if thorough {
-                "exhaustive: all 256 HTYP bytes x 4 payload variants (one with counter 0x4C / length 0x5401) through dlt_message/header_type_byte/as_bytes; all 256 MSIN bytes through MessageType::try_from, u8::from, dlt_message and ExtendedHeader::as_bytes; ALL 2^32 type-info words through TypeInfo::try_from / as_bytes in both byte orders (65536 blocks of 65536), plus random words through the argument parser in both byte orders. distinct = accepted words with the format-ignored bits masked out (plus 1024 HTYP and 256 MSIN cases); every accepted word is non-trivial"
+                "exhaustive: all 256 HTYP bytes x 6 variants (one with counter 0x4C / length 0x5401) through dlt_message/header_type_byte/as_bytes; all 256 MSIN bytes through MessageType::try_from, u8::from, dlt_message and ExtendedHeader::as_bytes; ALL 2^32 type-info words through TypeInfo::try_from / as_bytes in both byte orders (65536 blocks of 65536), plus random words through the argument parser in both byte orders. distinct = accepted words with the format-ignored bits masked out (plus 1536 HTYP and 256 MSIN cases); every accepted word is non-trivial"
             } else {
-                "all 256 HTYP bytes x 4 payload variants (one with counter 0x4C / length 0x5401, so that HTYP 0x44 yields a header reading 'DLT\\x01'); all 256 MSIN bytes; type-info words: all 2^18 values of bits 0-17 under 16 patterns of the reserved bits 18-31 (64 blocks of 65536), for the first pattern also the byte-swapped / rotated / shifted images of every word, then blocks of 8192 random words (half of them forced to name exactly one kind), every 8th random word also through the argument parser in both byte orders, inside a log message and inside a network-trace message, plus the raw/string/bool words and their byte-order images. distinct = accepted words with the format-ignored bits masked out (plus 1024 HTYP and 256 MSIN cases)"
+                "all 256 HTYP bytes x 6 variants (one with counter 0x4C / length 0x5401, so that HTYP 0x44 yields a header reading 'DLT\\x01'); all 256 MSIN bytes; type-info words: all 2^18 values of bits 0-17 under 16 patterns of the reserved bits 18-31 (64 blocks of 65536), for the first pattern also the byte-swapped / rotated / shifted images of every word, then blocks of 8192 random words (half of them forced to name exactly one kind), every 8th random word also through the argument parser in both byte orders, inside a log message and inside a network-trace message, plus the raw/string/bool words and their byte-order images. distinct = accepted words with the format-ignored bits masked out (plus 1536 HTYP and 256 MSIN cases)"
             },
             &[
                 "acceptance rule: bits 4-10 name exactly one of bool/sint/uint/float/string/raw; sint/uint TYLE 1-5 (3-4 with FIXP); float TYLE 3-4; no width constraint for bool/string/raw",
                 "minimal used masks per kind: kind bits 4-10 and VARI always; TYLE for numeric kinds; FIXP for sint/uint; SCOD for string",
             ],
-            &[("htyp.ok", 1024), ("msin.ok", 256), ("msin.parser_ok", 256), ("typeinfo.accepted_words", 10000)],
+            &[("htyp.ok", 1536), ("msin.ok", 256), ("msin.parser_ok", 256), ("typeinfo.accepted_words", 10000)],
         )
         .set("fixed_chunks", 2 + word_blocks(ctx.tier, light))
-        .set("exhaustive_space", if thorough { "2^8 HTYP x 4, 2^8 MSIN, 2^32 type-info words" } else { "2^8 HTYP x 4, 2^8 MSIN, 2^18 low type-info bits x 16 high-bit patterns" })
+        .set("exhaustive_space", if thorough { "2^8 HTYP x 6, 2^8 MSIN, 2^32 type-info words" } else { "2^8 HTYP x 6, 2^8 MSIN, 2^18 low type-info bits x 16 high-bit patterns" })
     }
 }
